@@ -19,7 +19,7 @@ NONTRIVIAL = {
     "C16": ["C16:concurrent_writers_and_early_waiter"],
     "C02": ["C02:multi_block_commit", "C02:round_gap_in_sequence", "C02:first_block_round_gt_1"],
     "C06": ["C06:with_crash", "C06:async_then_stable"],
-    "C07": ["C07:gap_of_2plus_blocks"],
+    "C07": ["C07:gap_of_2plus_blocks", "C07:retry_observed", "C07:first_sync_target_silent"],
     "C03": ["C03:second_proposal_after_vote", "C03:proposal_after_own_timeout", "C03:unsafe_extension_offered", "C03:vote_via_tc"],
     "C05": ["C05:certified_2chain_with_gap_shown", "C05:commit_as_ancestor"],
     "C08": ["C08:vote_with_payload", "C08:commit_with_payload"],
@@ -27,7 +27,7 @@ NONTRIVIAL = {
     "C04": ["C04:invalid_input_processed"],
 }
 
-PUPPET_DIRECTED = ["d01", "d02", "d03", "d04", "d07", "d09", "d10", "d15", "d17", "d18"]
+PUPPET_DIRECTED = ["d01", "d02", "d03", "d04", "d07", "d09", "d10", "d15", "d17", "d18", "d19"]
 
 
 def puppet_mix(rand_count, directed_each, **params):
@@ -39,7 +39,7 @@ def cluster_mix(each, **params):
     return [J("cluster", c, each, per_process=6, **params) for c in ("s2", "s3", "s4")]
 
 
-C06_PARAMS = dict(timeout_ms=1000, hi_ms=50, sync_retry_ms=1000, duration_ms=250000)
+C06_PARAMS = dict(timeout_ms=1000, hi_ms=50, sync_retry_ms=1000, duration_ms=200000)
 
 PLANS = {
     "C02": {
@@ -81,15 +81,15 @@ PLANS = {
         "level": "exploration",
         "rule": "cluster runs with <= f crashed nodes (s2) or heavy pre-GST delays (s3); oracle: every live node's highest committed round grows in every window W = 6(f+1)*timeout + sync_retry + 2*5s after stabilisation; non-trivial = run with a crash or with an asynchronous prefix; distinct = distinct Core-event fingerprints",
         "assumptions": ["bounded restatement of liveness (DESIGN.md C06)", "no frame between live nodes is lost; delays <= timeout/10 after GST"],
-        "quick": [J("cluster", "s2", 64, per_process=4, **C06_PARAMS), J("cluster", "s3", 64, per_process=4, **C06_PARAMS), J("cluster", "s2", 32, per_process=4, equal_stakes=1, **C06_PARAMS)],
+        "quick": [J("cluster", "s2", 48, per_process=3, **C06_PARAMS), J("cluster", "s3", 48, per_process=3, **C06_PARAMS), J("cluster", "s2", 32, per_process=2, equal_stakes=1, **C06_PARAMS)],
         "thorough": [J("cluster", "s2", 2000, **C06_PARAMS), J("cluster", "s3", 2000, **C06_PARAMS)],
     },
     "C07": {
         "level": "fault_enumeration",
-        "rule": "cluster runs of class s4 (single-node isolation / minority split for 1..20 timeouts, then heal and a quiet settling period); non-trivial = the others committed >= 2 rounds while the victim was cut off; distinct = distinct Core-event fingerprints",
+        "rule": "cluster runs of class s4 (single-node isolation / minority split for 1..20 timeouts, then heal and a quiet settling period) and puppet catch-up scripts d07 (a proposal whose 2..11 ancestors were withheld; the first sync target answers or stays silent, in which case only requests re-sent after sync_retry_delay + the 5 s timer are answered; sync_retry_delay 1 s / 5 s / 10 s); always-on in every run: each helper reply is byte-identical to the block first seen under the requested digest and was asked for, blocks are stored parent-first; non-trivial = the others committed >= 2 rounds while the victim was cut off, a retried request was observed, or the first sync target was silent; distinct = distinct Core-event fingerprints",
         "assumptions": ["links are loss-free after the heal"],
-        "quick": [J("cluster", "s4", 192, duration_ms=90000)],
-        "thorough": [J("cluster", "s4", 3000, duration_ms=90000)],
+        "quick": [J("cluster", "s4", 128, per_process=4, duration_ms=90000)] + [J("puppet", "d07", 48, per_process=6, sync_retry_ms=r) for r in (1000, 5000, 10000)] + [J("puppet", "rand", 160, per_process=10)],
+        "thorough": [J("cluster", "s4", 3000, duration_ms=90000)] + [J("puppet", "d07", 2000, per_process=20, sync_retry_ms=r) for r in (1000, 5000, 10000)] + [J("puppet", "rand", 10000, per_process=20)],
     },
 }
 
@@ -144,10 +144,10 @@ PLANS.update({
     },
     "C13": {
         "level": "exploration",
-        "rule": "4..7 real full nodes (Node::new from JSON key / committee / parameter files, mempool and consensus on one store) with clients writing unique transactions (single node, all nodes, bursts, trickles, empty and duplicated transactions) to the transaction ports; class s1: no fault and no view change (otherwise inconclusive): every transaction is in a batch referenced by a block every node commits and every committed batch is readable, byte-exact, from every node's re-opened store; class s10: the mempool link from a batch creator to a victim node is blocked for the whole run: the victim must fetch the batches on demand (BatchRequest to the proposer, retry to other peers when the proposer is the blocked creator) and keep up with the others; non-trivial = a run with >= 1 on-demand batch fetch by the victim, or a fault-free run that traced every transaction end to end",
+        "rule": "4..7 real full nodes (Node::new from JSON key / committee / parameter files, mempool and consensus on one store) with clients writing unique transactions (single node, all nodes, bursts, trickles, empty and duplicated transactions) to the transaction ports; class s1: no fault and no view change (otherwise inconclusive): every transaction is in a batch referenced by a block every node commits and every committed batch is readable, byte-exact, from every node's re-opened store; class s10 / s10b (s10b: consensus sync retry 1 s, mempool sync retry 6 s, so that consensus re-issues its synchronize command faster than the mempool's fallback delay): the mempool link from a batch creator to a victim node is blocked for the whole run: the victim must fetch the batches on demand (BatchRequest to the proposer, retry to other peers when the proposer is the blocked creator) and keep up with the others; non-trivial = a run with >= 1 on-demand batch fetch by the victim, or a fault-free run that traced every transaction end to end",
         "assumptions": ["delays <= 40 ms (timeout 2 s)", "settling time 20 s / 40 s of virtual time"],
-        "quick": [J("e2e", "s1", 48, per_process=3), J("e2e", "s10", 48, per_process=3)],
-        "thorough": [J("e2e", "s1", 1500, per_process=8), J("e2e", "s10", 1500, per_process=8)],
+        "quick": [J("e2e", "s1", 40, per_process=3), J("e2e", "s10", 32, per_process=3), J("e2e", "s10b", 32, per_process=3)],
+        "thorough": [J("e2e", "s1", 1500, per_process=8), J("e2e", "s10", 1000, per_process=8), J("e2e", "s10b", 1000, per_process=8)],
     },
     "C15": {
         "level": "exploration",
@@ -223,8 +223,8 @@ FLOORS = {
     "C05": {"quick": {"C05.commits_checked": 1000, "sit:C05:certified_2chain_with_gap_shown": 5}},
     "C08": {"quick": {"C08.votes_with_payload_checked": 100, "C08.commits_with_payload_checked": 100}},
     "C10": {"quick": {"C10.round_advances_checked": 2000, "C10.timeouts_checked": 50, "sit:C10:jump_gt_1": 5, "sit:C10:advance_by_tc": 5}},
-    "C06": {"quick": {"C06.windows_checked": 500}},
-    "C07": {"quick": {"C07.recoveries_checked": 20}},
+    "C06": {"quick": {"C06.windows_checked": 400}},
+    "C07": {"quick": {"C07.recoveries_checked": 20, "C07.puppet_catch_ups_checked": 100, "C07.sync_replies_checked": 1000, "C07.store_order_checked": 10000, "sit:C07:retry_observed": 20}},
 }
 
 
